@@ -46,6 +46,8 @@ func c02Values() []c02Named {
 		{"time.Time", time.Unix(0, 0).UTC()}, {"decimal", decimal.New(15, -1)}, {"Stringer", tS{"str"}}, {"Number", tN{2}},
 		{"[]string{}", []string{}}, {"[][]int", [][]int{{1}, {}}},
 		{"map[interface{}]interface{} with keys of 6 kinds", map[interface{}]interface{}{1: "a", "k": "b", 2.5: "c", true: "d", uint8(7): "e", int64(-1): "f", nil: "g"}},
+		{`"/"`, "/"}, {`"/admin"`, "/admin"}, {`"(["`, "(["}, {`"\\"`, "\\"},
+		{"struct embedding a nil pointer", c16S2{Own: "o"}}, {"*struct embedding a set pointer", &c16S2{&c16PE{7}, "o"}},
 		{"named []string with String()", c16Tags{"t1", "t2"}}, {"net.IP", net.IP{10, 0, 0, 1}}, {"time.Duration", 90 * time.Second},
 	}
 }
@@ -84,6 +86,7 @@ var c02TagForms = []string{
 	"{{ x ~ x }}{{ \"#{x}\" }}",
 	"{{ [x, x]|length }}{{ {k: x}.k }}",
 	"{{ x.k.j }}{{ x[x] }}{{ x.0 }}{{ x[0][0] }}",
+	"{{ x.P }}{{ x.Own }}{{ x.A }}{{ x.B }}{{ x.Name }}{{ x['P'] }}",
 	"{{ x ? x : x }}{{ not x }}{{ -x }}{{ +x }}",
 	"{{ x is odd }}{{ x is not even }}{{ x is divisible by(x) }}",
 	"{{ f(x) }}{{ x|up }}{{ x|wrap(x) }}",
